@@ -318,7 +318,7 @@ class Printer:
             if rd['kind'] == 'EnumConstantDecl':
                 self.fire('expr:enum-constant')
                 return self.enum_value(rd, n)
-            if self.unit.get('abstract') and rd['kind'] == 'ParmVarDecl':
+            if self.unit.get('abstract') and rd['kind'] == 'ParmVarDecl' and nm not in self.unit.get('keep_params', []):
                 # scalar parameter of an abstracted function: a ghost global gh_p_<name> (declared in the unit prelude, havocked by the harness)
                 self.fire('abs:scalar-parameter-as-ghost')
                 return 'gh_p_' + nm
@@ -1115,6 +1115,17 @@ class Printer:
             if rc:
                 self.fire('abs:touch-in-initialiser')
                 return t + 'TOUCH(); /* initialiser calls %s */\n' % ', '.join(str(x) for x in rc)
+            eff = self.unit.get('call_effects', {})
+            hits = []
+            for c in walk(n):
+                if c.get('kind') in ('CXXMemberCallExpr', 'CallExpr') and c.get('inner'):
+                    f_ = self.callee_decl(c['inner'][0])
+                    nm_ = f_.get('name') or f_.get('referencedDecl', {}).get('name')
+                    if nm_ in eff:
+                        hits.append(nm_)
+            if hits:
+                self.fire('abs:call-with-ghost-effect')
+                return ''.join(t + eff[h] + ';   /* initialiser calls %s */\n' % h for h in hits)
             self.fire('abs:local-decl')
             return t + '/* local declaration */;\n'
         if k in ('ForStmt', 'WhileStmt', 'CXXForRangeStmt', 'DoStmt'):
@@ -1132,6 +1143,36 @@ class Printer:
             self.fire('abs:local-only-statement')
             return t + '/* operates on a local variable */;\n'
         nn = self.skip(n)
+        # (1) calls with a declared ghost effect (`call_effects: callee => ghost statement`), (2) calls of other abstracted methods of
+        #     the same object (`abs_calls: callee => C function`), (3) assignments of one scalar member from scalar members/literals
+        if nn.get('kind') in ('CXXMemberCallExpr', 'CallExpr') and nn.get('inner'):
+            f_ = self.callee_decl(nn['inner'][0])
+            nm_ = f_.get('name') or f_.get('referencedDecl', {}).get('name')
+            eff = self.unit.get('call_effects', {})
+            if nm_ in eff and len(risky_calls(n)) <= (0 if nm_ in allow else 1):
+                self.fire('abs:call-with-ghost-effect')
+                return t + eff[nm_] + ';   /* %s */\n' % nm_
+            ac = self.unit.get('abs_calls', {})
+            if nm_ in ac:
+                ro_ = self.root_object(nn)
+                if ro_ and ro_.get('kind') == 'this':
+                    self.fire('abs:call-of-abstracted-method')
+                    self.called[ac[nm_]] += 1
+                    return t + '%s(self);\n' % ac[nm_]
+        if nn.get('kind') == 'BinaryOperator' and nn.get('opcode') == '=':
+            try:
+                for x in walk(nn):
+                    if x.get('kind') in ('CallExpr', 'CXXMemberCallExpr', 'CXXOperatorCallExpr', 'CXXConstructExpr'):
+                        raise ExtractionBreak('not a plain scalar assignment')
+                    if x.get('kind') == 'DeclRefExpr' and x.get('referencedDecl', {}).get('kind') == 'VarDecl':
+                        raise ExtractionBreak('local in assignment')
+                lhs = nn['inner'][0]
+                if Types.strip(lhs.get('type', {}).get('qualType', '')) in SCALARS:
+                    txt_ = self.e(nn)
+                    self.fire('abs:scalar-member-assignment')
+                    return t + txt_ + ';\n'
+            except ExtractionBreak:
+                pass
         if nn.get('kind') in ('CXXMemberCallExpr', 'CallExpr') and not risky_calls(n):
             self.fire('abs:whitelisted-call')
             return t + '/* whitelisted call */;\n'
@@ -1282,7 +1323,7 @@ def render_function(unit, docs, types):
             raise ExtractionBreak('method %s needs a self struct name' % cname)
         params.append('%s *self' % selfname)
     for c in fn.get('inner', []):
-        if c.get('kind') == 'ParmVarDecl' and unit.get('abstract'):
+        if c.get('kind') == 'ParmVarDecl' and unit.get('abstract') and c.get('name') not in unit.get('keep_params', []):
             p.local_ids.add(c['id'])
             continue
         if c.get('kind') == 'ParmVarDecl':
@@ -1320,7 +1361,6 @@ def render_function(unit, docs, types):
     if unit.get('abstract'):
         btxt = p.st_abs(body, 0)
         ret = 'void'
-        params = params[:1] if is_method else []
     else:
         btxt = p.st(body, 0)
     sig = '%s %s(%s)' % (ret, cname, ', '.join(params) if params else 'void')
